@@ -427,7 +427,17 @@ def _residual_summary_job(which: str) -> Callable[[], Record]:
                 return {"input": leaf(ctx, "input", sh), "tau": tau}
             return {"residual": leaf(ctx, "residual", sh), "skip": leaf(ctx, "skip", sh), "tau": tau}
 
-        return body_vs_contract("C06", UF + which, {}, make, lambda a: [v for v in a.values() if isinstance(v, SymTensor)])
+        def extra(p: PathResult, args: Any) -> None:
+            body = p.value[0]
+            if which != "residual_split" or body[0] != "return":
+                return
+            r, s_ = body[1]
+            x = args["input"]
+            # "for ANY branch function f" includes in-place ones: the two results must not share
+            # storage with each other or with the caller's tensor
+            p.ctx.oblige("C06:functional.residual_split:residual_skip_and_input_do_not_share_storage", isinstance(r, SymTensor) and isinstance(s_, SymTensor) and r.storage is not s_.storage and r.storage is not x.storage and s_.storage is not x.storage)
+
+        return body_vs_contract("C06", UF + which, {}, make, lambda a: [v for v in a.values() if isinstance(v, SymTensor)], extra)
 
     return run
 
